@@ -19,8 +19,9 @@ import time
 import xml.etree.ElementTree as ET
 
 ROOT = os.path.dirname(os.path.dirname(os.path.abspath(__file__)))
-CLI = os.environ.get("SLT_CLI_BIN", os.path.join(ROOT, "harness", "target", "cli", "debug", "sqllogictest"))
-ENGINE = os.path.join(ROOT, "harness", "target", "release", "fake_engine")
+HARNESS_DIR = os.environ.get("SLT_HARNESS_DIR", os.path.join(ROOT, "harness"))
+CLI = os.environ.get("SLT_CLI_BIN", os.path.join(HARNESS_DIR, "target", "cli", "debug", "sqllogictest"))
+ENGINE = os.path.join(HARNESS_DIR, "target", "release", "fake_engine")
 SCRATCH = os.environ.get("SLT_SCRATCH", os.path.join(ROOT, "out", "scratch"))
 
 
